@@ -14,7 +14,7 @@ func (s sortAttributes) Len() int { return len(s) }
 
 func (s sortAttributes) Less(i, j int) bool {
 	a := s[i].OID
-	b := s[i].OID
+	b := s[j].OID
 
 	for len(a) > 0 || len(b) > 0 {
 		var x, y int
@@ -31,7 +31,8 @@ func (s sortAttributes) Less(i, j int) bool {
 		}
 	}
 
-	return false
+	// equal OIDs: order by name, so that the result does not depend on declaration order
+	return s[i].Name < s[j].Name
 }
 
 func (s sortAttributes) Swap(i, j int) { s[i], s[j] = s[j], s[i] }
@@ -52,6 +53,11 @@ func SortVendors(vendors []*Vendor) {
 
 type sortVendors []*Vendor
 
-func (s sortVendors) Len() int           { return len(s) }
-func (s sortVendors) Less(i, j int) bool { return s[i].Number < s[j].Number }
-func (s sortVendors) Swap(i, j int)      { s[i], s[j] = s[j], s[i] }
+func (s sortVendors) Len() int { return len(s) }
+func (s sortVendors) Less(i, j int) bool {
+	if s[i].Number != s[j].Number {
+		return s[i].Number < s[j].Number
+	}
+	return s[i].Name < s[j].Name
+}
+func (s sortVendors) Swap(i, j int) { s[i], s[j] = s[j], s[i] }
